@@ -100,6 +100,7 @@ type c19Finding struct {
 // c19Judge validates v against s in every standalone mode and through the request/response validators.
 func c19Judge(r *core.Run, s *openapi3.Schema, v any, order int, filter bool) (out []c19Finding, rejected bool) {
 	defer func() {
+		openapi3.SchemaErrorDetailsDisabled = true
 		if p := recover(); p != nil {
 			out = append(out, c19Finding{"no-panic", map[string]any{"panic": fmt.Sprint(p)}})
 		}
@@ -126,6 +127,17 @@ func c19Judge(r *core.Run, s *openapi3.Schema, v any, order int, filter bool) (o
 				rejected = true
 			}
 			sites(fmt.Sprintf("standalone ff=%v multi=%v", ff, me), err)
+			// the same call with schema error details enabled (the default): the Reason fields must be clean there too
+			// (Error() legitimately quotes the value in that setting and is not inspected)
+			openapi3.SchemaErrorDetailsDisabled = false
+			r.Exec(order)
+			err2 := s.VisitJSON(cloneJSON(v), c12Opts(ff, me, 0)...)
+			openapi3.SchemaErrorDetailsDisabled = true
+			walkSchemaErrors(err2, 0, func(se *openapi3.SchemaError) {
+				if m := containsMarker(se.Reason); m != "" {
+					out = append(out, c19Finding{"reason-leaks-value:" + se.SchemaField, map[string]any{"mode": fmt.Sprintf("standalone(details enabled) ff=%v multi=%v", ff, me), "field": se.SchemaField, "reason": se.Reason}})
+				}
+			})
 		}
 	}
 	if !filter || !rejected {
